@@ -15,7 +15,7 @@ Definition known_gap (i : input) : bool :=
   end.
 
 Definition success (o : observed) : bool :=
-  match o with ORes S2 _ _ _ => true | _ => false end.
+  match o with ORes S2 _ _ _ _ => true | _ => false end.
 
 (* split on whatever the goal still branches on *)
 Ltac split_goal :=
@@ -49,7 +49,7 @@ Proof.
   intro i; open_input i; cbn [i_endpoint i_cfg i_reg i_pres i_grant i_router].
   all: intros -> Hgap.
   all: unfold model, known_gap in *; cbn [i_endpoint i_cfg i_reg i_pres i_grant i_router] in *.
-  all: destruct r, g; cbn in Hgap |- *; destruct p as [| |[] ?| |[]|[]|[] []], meth;
+  all: destruct r, g; cbn in Hgap |- *; destruct p as [| |[] ?| |[]|[]|[] []| | | |], meth;
     cbn in Hgap |- *; split_goal.
 Qed.
 
@@ -64,7 +64,7 @@ Proof.
   all: intros -> Hgap.
   all: unfold model, known_gap in *; cbn [i_endpoint i_cfg i_reg i_pres i_grant i_router] in *.
   all: destruct r, g; try discriminate Hgap.
-  all: destruct p as [| |[] ?| |[]|[]|[] []], meth; cbn; split_goal; split; reflexivity.
+  all: destruct p as [| |[] ?| |[]|[]|[] []| | | |], meth; cbn; split_goal; split; reflexivity.
 Qed.
 
 Lemma introspect_success_justified : forall i,
@@ -73,7 +73,7 @@ Lemma introspect_success_justified : forall i,
 Proof.
   intro i; open_input i; cbn [i_endpoint i_cfg i_reg i_pres i_grant i_router].
   all: intros ->; unfold model; cbn [i_endpoint i_cfg i_reg i_pres i_grant i_router].
-  all: destruct r; destruct p as [| |[] ?| |[]|[]|[] []], meth; cbn; split_goal.
+  all: destruct r; destruct p as [| |[] ?| |[]|[]|[] []| | | |], meth; cbn; split_goal.
 Qed.
 
 Lemma revoke_success_justified : forall i,
@@ -82,16 +82,16 @@ Lemma revoke_success_justified : forall i,
 Proof.
   intro i; open_input i; cbn [i_endpoint i_cfg i_reg i_pres i_grant i_router].
   all: intros ->; unfold model; cbn [i_endpoint i_cfg i_reg i_pres i_grant i_router].
-  all: destruct r; destruct p as [| |[] ?| |[]|[]|[] []], meth; cbn; split_goal.
+  all: destruct r; destruct p as [| |[] ?| |[]|[]|[] []| | | |], meth; cbn; split_goal.
 Qed.
 
 Lemma device_authz_success_justified : forall i,
-  i_endpoint i = EDeviceAuthz ->
+  i_endpoint i = EDeviceAuthz -> names_other (i_pres i) = false ->
   success (model i) = true -> device_authz_justified (i_reg i) (i_pres i) = true.
 Proof.
   intro i; open_input i; cbn [i_endpoint i_cfg i_reg i_pres i_grant i_router].
   all: intros ->; unfold model; cbn [i_endpoint i_cfg i_reg i_pres i_grant i_router].
-  all: destruct r; destruct p as [| |[] ?| |[]|[]|[] []], meth; cbn; split_goal.
+  all: destruct r; destruct p as [| |[] ?| |[]|[]|[] []| | | |], meth; cbn; split_goal.
 Qed.
 
 (* ---------------- refusals *)
@@ -99,21 +99,23 @@ Qed.
 (* whatever the model answers is either the success document or a well-shaped refusal *)
 Lemma refusal_shape_model : forall i,
   match model i with
-  | ORes S2 e tok act => e = ENone
-  | ORes s e tok act => refusal_shape (i_endpoint i) s e tok act = true
+  | ORes S2 e tok act w => e = ENone /\ if names_other (i_pres i) then w = WOther /\ i_endpoint i = EDeviceAuthz
+                                        else w <> WOther
+  | ORes s e tok act w => refusal_shape (i_endpoint i) s e tok act w = true
   | _ => False
   end.
 Proof.
   intro i; open_input i; unfold model; cbn [i_endpoint i_cfg i_reg i_pres i_grant i_router].
-  all: destruct e; [destruct g| | |]; destruct r; destruct p as [| |[] ?| |[]|[]|[] []], meth; cbn; split_goal.
+  all: destruct e; [destruct g| | |]; destruct r; destruct p as [| |[] ?| |[]|[]|[] []| | | |], meth; cbn; split_goal.
+  all: repeat split; discriminate.
 Qed.
 
 (* ---------------- the predicate on the model *)
 
 Lemma justified_model : forall i,
-  known_gap i = false -> success (model i) = true -> justified i = true.
+  known_gap i = false -> names_other (i_pres i) = false -> success (model i) = true -> justified i = true.
 Proof.
-  intros i Hg Hs. unfold justified.
+  intros i Hg Hn Hs. unfold justified.
   destruct (i_endpoint i) eqn:He.
   - now apply token_success_justified.
   - now apply introspect_success_justified.
@@ -126,9 +128,12 @@ Proof.
   intros i Hg.
   pose proof (justified_model i Hg) as Hj.
   pose proof (refusal_shape_model i) as Hr.
-  unfold spec. destruct (model i) as [s e tok act| |]; try contradiction.
+  unfold spec. destruct (model i) as [s e tok act w| |]; try contradiction.
   destruct s; try exact Hr.
-  subst e. cbn in Hj. rewrite Hj; reflexivity.
+  destruct Hr as [-> Hw]. cbn [andb].
+  destruct (names_other (i_pres i)) eqn:Hn.
+  - destruct Hw as [-> He]. unfold other_justified. now rewrite He.
+  - rewrite Hj by reflexivity. destruct w; try reflexivity. now elim Hw.
 Qed.
 
 Definition gap_witness : input :=
@@ -194,53 +199,70 @@ Proof.
 Qed.
 
 Lemma device_authz_statement : forall r c rg p g,
+  names_other p = false ->
   success (model (mkInput r EDeviceAuthz c rg p g)) = true ->
   r_known rg = true /\ identifies p = true /\ registered rg GDevice = true.
 Proof.
-  intros r c rg p g Hs.
-  pose proof (device_authz_success_justified (mkInput r EDeviceAuthz c rg p g) eq_refl Hs) as H.
+  intros r c rg p g Hno Hs.
+  pose proof (device_authz_success_justified (mkInput r EDeviceAuthz c rg p g) eq_refl Hno Hs) as H.
   cbn [i_reg i_pres] in H. unfold device_authz_justified in H.
   apply andb_true_iff in H as [H H3]. apply andb_true_iff in H as [H1 H2]. auto.
 Qed.
 
 (* every answer that is not the success document is a refusal: status >= 400, no token, nothing
    disclosed or revoked, and on the token endpoint an OAuth error document *)
-Lemma refusal_statement : forall i s e tok act,
-  model i = ORes s e tok act -> s <> S2 ->
-  (s = S4 \/ s = S5) /\ tok = false /\ act = false /\
+Lemma refusal_statement : forall i s e tok act w,
+  model i = ORes s e tok act w -> s <> S2 ->
+  (s = S4 \/ s = S5) /\ tok = false /\ act = false /\ w = WNone /\
   (i_endpoint i = EToken -> oauth_code e = true).
 Proof.
-  intros i s e tok act Hm Hs.
+  intros i s e tok act w Hm Hs.
   pose proof (refusal_shape_model i) as H. rewrite Hm in H.
-  assert (Hr : refusal_shape (i_endpoint i) s e tok act = true) by (destruct s; try exact H; congruence).
+  assert (Hr : refusal_shape (i_endpoint i) s e tok act w = true) by (destruct s; try exact H; congruence).
   unfold refusal_shape in Hr.
-  apply andb_true_iff in Hr as [Hr H4]. apply andb_true_iff in Hr as [Hr H3].
-  apply andb_true_iff in Hr as [H1 H2].
+  apply andb_true_iff in Hr as [Hr H4]. apply andb_true_iff in Hr as [Hr H5].
+  apply andb_true_iff in Hr as [Hr H3]. apply andb_true_iff in Hr as [H1 H2].
   repeat split.
   - destruct s; try discriminate H1; auto.
   - now destruct tok.
   - now destruct act.
+  - now destruct w.
   - intros He. now rewrite He in H4.
 Qed.
 
-(* the model never panics and never writes twice *)
-Lemma model_total : forall i, exists s e tok act, model i = ORes s e tok act.
+(* whatever a request issues, revokes or reports active belongs to the case's client X; the one
+   exception needs no authentication at all: a device code in the name of a client the request
+   names. In particular a valid credential of X next to the id of Y never acts for Y. *)
+Lemma acts_for_self : forall i s e tok act w,
+  model i = ORes s e tok act w -> w = WOther ->
+  i_endpoint i = EDeviceAuthz /\ names_other (i_pres i) = true.
 Proof.
-  intro i. unfold model. destruct (authenticate _ _ _ _ _ _); eauto.
+  intros i s e tok act w Hm ->.
+  pose proof (refusal_shape_model i) as H. rewrite Hm in H.
+  destruct s; try (unfold refusal_shape in H; rewrite ?andb_false_r in H; cbn in H; discriminate H).
+  destruct H as [_ H]. destruct (names_other (i_pres i)).
+  - now destruct H.
+  - now elim H.
+Qed.
+
+(* the model never panics and never writes twice *)
+Lemma model_total : forall i, exists s e tok act w, model i = ORes s e tok act w.
+Proof.
+  intro i. unfold model. destruct (authenticate _ _ _ _ _ _ _); eauto 6.
 Qed.
 
 (* consequences spelled out for the cases the property text names *)
 
 (* an unknown client gets nothing anywhere *)
 Lemma unknown_client_refused : forall r e c rg p g,
-  r_known rg = false -> success (model (mkInput r e c rg p g)) = false.
+  r_known rg = false -> names_other p = false -> success (model (mkInput r e c rg p g)) = false.
 Proof.
-  intros r e c rg p g Hk.
+  intros r e c rg p g Hk Hno.
   destruct (success (model (mkInput r e c rg p g))) eqn:Hs; [|reflexivity].
   assert (Hgap : known_gap (mkInput r e c rg p g) = false \/ known_gap (mkInput r e c rg p g) = true)
     by (destruct (known_gap _); auto).
   destruct Hgap as [Hg|Hg].
-  - pose proof (justified_model _ Hg Hs) as Hj. unfold justified in Hj; cbn [i_endpoint i_cfg i_reg i_pres i_grant] in Hj.
+  - pose proof (justified_model _ Hg Hno Hs) as Hj. unfold justified in Hj; cbn [i_endpoint i_cfg i_reg i_pres i_grant] in Hj.
     destruct e; cbn in Hj.
     + unfold token_justified, cred_valid in Hj. rewrite Hk in Hj.
       destruct g; cbn in Hj; rewrite ?andb_false_r in Hj; discriminate Hj.
@@ -261,6 +283,7 @@ Lemma wrong_secret_refused : forall r e c rg p g,
   success (model (mkInput r e c rg p g)) = false.
 Proof.
   intros r e c rg p g Hm Hp Ha He Hgb.
+  assert (Hno : names_other p = false) by (destruct p; cbn in *; congruence).
   destruct (success (model (mkInput r e c rg p g))) eqn:Hs; [|reflexivity].
   assert (Hcv : forall b, cred_valid c rg p b = false).
   { intro b. unfold cred_valid. rewrite Hp, Ha.
@@ -269,7 +292,7 @@ Proof.
   - unfold known_gap in Hg; cbn [i_router i_endpoint i_grant i_reg] in Hg.
     destruct r, e, g; try discriminate Hg. apply negb_true_iff in Hg.
     destruct (token_gap c rg p Hg Hs) as [_ Hc]. rewrite Hcv in Hc. discriminate Hc.
-  - pose proof (justified_model _ Hg Hs) as Hj. unfold justified in Hj; cbn [i_endpoint i_cfg i_reg i_pres i_grant] in Hj.
+  - pose proof (justified_model _ Hg Hno Hs) as Hj. unfold justified in Hj; cbn [i_endpoint i_cfg i_reg i_pres i_grant] in Hj.
     destruct e; try congruence.
     + unfold token_justified in Hj. rewrite Hcv in Hj.
       destruct g; try congruence; rewrite ?andb_false_r in Hj; discriminate Hj.
@@ -294,11 +317,12 @@ Proof.
 Qed.
 
 Lemma unregistered_device_grant_no_device_code : forall r c rg p g,
-  registered rg GDevice = false -> success (model (mkInput r EDeviceAuthz c rg p g)) = false.
+  registered rg GDevice = false -> names_other p = false ->
+  success (model (mkInput r EDeviceAuthz c rg p g)) = false.
 Proof.
-  intros r c rg p g Hn.
+  intros r c rg p g Hn Hno.
   destruct (success (model (mkInput r EDeviceAuthz c rg p g))) eqn:Hs; [|reflexivity].
-  destruct (device_authz_statement r c rg p g Hs) as [_ [_ H]]. congruence.
+  destruct (device_authz_statement r c rg p g Hno Hs) as [_ [_ H]]. congruence.
 Qed.
 
 (* a disabled grant (provider flag or storage capability off) yields no token *)
@@ -318,7 +342,6 @@ Qed.
 (* ---------------- non-vacuity: success is reachable on every endpoint and router *)
 
 Definition all_on := mkCfg true true true true true true.
-Definition all_grants := [GCode; GRefresh; GCC; GBearer; GTE; GDevice; GImplicit].
 
 Example token_nonvacuous :
   forallb (fun r => forallb (fun g =>
@@ -342,8 +365,18 @@ Proof. vm_compute. reflexivity. Qed.
 
 Example refusal_nonvacuous :
   model (mkInput RLegacy EToken all_on (mkReg true MBasic AWeb all_grants true) (PBasic SWrong false) GCode)
-  = ORes S4 EInvalidClient false false.
+  = ORes S4 EInvalidClient false false WNone.
 Proof. vm_compute. reflexivity. Qed.
+
+(* cross-client requests: X's valid credential with Y's id and Y's artefact acts for X or not at all *)
+Example cross_nonvacuous :
+  let x := mkReg true MBasic AWeb all_grants true in
+  model (mkInput RProvider ERevoke all_on x PXBasic GMissing) = ORes S4 EInvalidClient false false WNone
+  /\ model (mkInput RLegacy EToken all_on x PXBasic GCode) = ORes S4 EInvalidGrant false false WNone
+  /\ model (mkInput RProvider EToken all_on x PXAssert GCC) = ORes S4 EInvalidClient false false WNone
+  /\ model (mkInput RLegacy EToken all_on x PXBasic GCC) = ORes S2 ENone true false WSelf
+  /\ model (mkInput RProvider EIntrospect all_on x PXAssert GMissing) = ORes S2 ENone false false WNone.
+Proof. vm_compute. repeat split; reflexivity. Qed.
 
 Example known_gap_nonvacuous : known_gap gap_witness = true /\ success (model gap_witness) = true.
 Proof. split; vm_compute; reflexivity. Qed.
